@@ -167,6 +167,51 @@ def case_axisymmetric_revolve(rep):
     return fn
 
 
+def case_condensed_state(kind, fam, rep):
+    """Without a solve: at a random state the force vector of the condensed body (settled) equals the displacement block of the
+    explicit three-field residual with the cell-wise J = v / V (current / undeformed cell volume, computed here) and
+    p = bulk (J - 1), whose pressure and volume blocks vanish."""
+    def fn(run):
+        import felupe as fem
+        rng = rng_for(run.seed, "C10", "condensed-state", kind, fam, rep)
+        mesh, L = problems.box_mesh(fam, rng)
+        if kind == "axisymmetric":
+            mesh = mesh.copy(points=mesh.points + np.array([0.0, float(rng.uniform(0.2, 2.0)) * L[1]]))
+        bulk = float(10 ** rng.uniform(1, 3.5))
+        mu = float(rng.uniform(0.5, 2))
+        f1 = problems.field_for(fam, mesh, kind)
+        f3 = fem.FieldsMixed(f1.region, n=3, planestrain=kind == "planestrain", axisymmetric=kind == "axisymmetric")
+        u = gen.random_displacement(rng, mesh, grad=0.15)
+        f1[0].values[:] = u
+        f3[0].values[:] = u
+        iso = [lambda: fem.NeoHooke(mu=mu), lambda: fem.NeoHookeCompressible(mu=mu)][rep % 2]
+        s1 = fem.SolidBodyNearlyIncompressible(iso(), f1, bulk=bulk)
+        s1.assemble.vector(f1)
+        r1 = s1.assemble.vector(f1).toarray().ravel()
+        Fq = f1.extract()[0]
+        detF = np.linalg.det(np.moveaxis(Fq, (0, 1), (-2, -1)))
+        reg = f1.region
+        if kind == "axisymmetric":
+            R = np.einsum("ca,aqc->qc", mesh.points[:, 1][mesh.cells], np.broadcast_to(reg.h, (reg.h.shape[0],) + reg.dV.shape))
+            w = 2 * np.pi * R * reg.dV
+        else:
+            w = reg.dV
+        J = (detF * w).sum(0) / w.sum(0)
+        f3[1].values[:] = (bulk * (J - 1)).reshape(f3[1].values.shape)
+        f3[2].values[:] = J.reshape(f3[2].values.shape)
+        s3 = fem.SolidBody(fem.NearlyIncompressible(iso(), bulk=bulk), f3)
+        r3 = s3.assemble.vector(f3).toarray().ravel()
+        nu = u.size
+        sc = max(maxabs(r3[:nu]), 1e-300)
+        run.compare("reduced.condensed", "kind=%s clause=state-force-equals-three-field-residual" % kind, maxabs(r1 - r3[:nu]) / sc, 1e-9,
+                    "condensed nearly-incompressible body (%s/%s): force vector at a state differs from the displacement block of the explicit "
+                    "three-field residual with J = v/V, p = bulk (J - 1)" % (kind, fam), unit="condensed:state-force:" + kind, config=("condensed-state", kind, fam, rep % 2))
+        run.compare("reduced.condensed", "kind=%s clause=state-constraint-blocks-vanish" % kind, maxabs(r3[nu:]) / max(sc, bulk * float(np.abs(w).sum()) * 1e-3), 1e-9,
+                    "with J = v/V and p = bulk (J - 1) the pressure / volume blocks of the three-field residual do not vanish (%s/%s)" % (kind, fam),
+                    unit="condensed:state-blocks:" + kind)
+    return fn
+
+
 def case_condensed(kind, fam, rep):
     def fn(run):
         import felupe as fem
@@ -307,6 +352,9 @@ def cases(tier, seed):
     for kind, fam in (("3d", "hexahedron"), ("planestrain", "quad"), ("axisymmetric", "quad"), ("3d", "hexahedron20"), ("planestrain", "quad8")):
         for rep in range(3 if tier == "quick" else 10):
             out.append(("condensed:%s:%s:%d" % (kind, fam, rep), case_condensed(kind, fam, rep)))
+    for kind, fam in (("3d", "hexahedron"), ("planestrain", "quad"), ("axisymmetric", "quad")):
+        for rep in range(2 if tier == "quick" else 8):
+            out.append(("condensed-state:%s:%s:%d" % (kind, fam, rep), case_condensed_state(kind, fam, rep)))
     for fam in ("quad", "hexahedron", "quad9", "hexahedron20"):
         for rep in range(reps):
             out.append(("uniform:%s:%d" % (fam, rep), case_uniform(fam, rep)))
@@ -316,7 +364,7 @@ def cases(tier, seed):
 SPEC = {
     "required_units": ["planestrain:force:quad", "planestrain:force:quad8", "planestrain:force:quad9", "planestrain:stiffness:quad",
                        "planestrain:stiffness:quad8", "planestrain:stiffness:quad9", "axisymmetric:energy:quad", "axisymmetric:energy:quad8",
-                       "axisymmetric:energy:triangle", "axisymmetric:energy:triangleMINI", "axisymmetric:revolve-convergence", "axisymmetric:revolve-extrapolated", "condensed:u:3d", "condensed:u:planestrain",
+                       "axisymmetric:energy:triangle", "axisymmetric:energy:triangleMINI", "axisymmetric:revolve-convergence", "axisymmetric:revolve-extrapolated", "condensed:state-force:3d", "condensed:state-force:planestrain", "condensed:state-force:axisymmetric", "condensed:u:3d", "condensed:u:planestrain",
                        "condensed:u:axisymmetric", "condensed:p:3d", "condensed:J:3d", "condensed:bulk:1", "condensed:bulk:2", "condensed:bulk:3", "condensed:state:3d", "condensed:restart:3d", "condensed:restart:axisymmetric",
                        "planestrain:parallel", "condensed:variant:NeoHooke|ThreeFieldVariation", "condensed:variant:tt.yeoh|NearlyIncompressible",
                        "uniform:vector", "uniform:matrix", "uniform:vector:axisymmetric", "uniform:matrix:axisymmetric", "uniform:constant:linear-elastic-matrix", "uniform:constant:mass", "uniform:constant:body-force"],
